@@ -1,5 +1,7 @@
 """C21 - generated and truncated names are bounded, deterministic and unique."""
 import ast
+import copy
+import difflib
 import hashlib
 import json
 import os
@@ -40,17 +42,14 @@ ASSUMPTIONS = [
     "spell 'constraint_name' in literal text",
 ]
 ANCHORS = [
-    ("lib/sqlalchemy/sql/compiler.py", "IdentifierPreparer._truncate_and_render_maxlen_name"),
     ("lib/sqlalchemy/sql/compiler.py", "IdentifierPreparer.truncate_and_render_index_name"),
     ("lib/sqlalchemy/sql/compiler.py", "IdentifierPreparer.truncate_and_render_constraint_name"),
     ("lib/sqlalchemy/sql/compiler.py", "IdentifierPreparer.format_constraint"),
     ("lib/sqlalchemy/sql/compiler.py", "IdentifierPreparer.format_index"),
-    ("lib/sqlalchemy/sql/compiler.py", "SQLCompiler._truncated_identifier"),
     ("lib/sqlalchemy/sql/compiler.py", "SQLCompiler._truncate_bindparam"),
     ("lib/sqlalchemy/sql/compiler.py", "SQLCompiler.visit_bindparam"),
     ("lib/sqlalchemy/sql/compiler.py", "SQLCompiler.visit_label"),
     ("lib/sqlalchemy/sql/compiler.py", "DDLCompiler._prepared_index_name"),
-    ("lib/sqlalchemy/engine/default.py", "DefaultDialect.validate_identifier"),
     ("lib/sqlalchemy/sql/naming.py", "ConventionDict"),
     ("lib/sqlalchemy/sql/naming.py", "_get_convention"),
     ("lib/sqlalchemy/sql/naming.py", "_constraint_name_for_table"),
@@ -58,10 +57,10 @@ ANCHORS = [
     ("lib/sqlalchemy/sql/elements.py", "_truncated_label"),
     ("lib/sqlalchemy/sql/elements.py", "_anonymous_label"),
     ("lib/sqlalchemy/sql/elements.py", "_anonymous_label_escape"),
-    ("lib/sqlalchemy/sql/_util_cy.py", "prefix_anon_map"),
     ("lib/sqlalchemy/util/langhelpers.py", "md5_hex"),
 ]
 
+# (the four functions of T2_FUNCS below are tied by skeleton + expression translation instead of the pin)
 VERIF = os.path.dirname(os.path.dirname(os.path.abspath(__file__)))
 
 # ------------------------------------------------------------------------------------------------
@@ -150,7 +149,30 @@ def dialect_table(repo):
 def _find(repo, rel, qual):
     from translate import fingerprint
 
-    return fingerprint.find_node(_parse(os.path.join(repo, rel)), qual)
+    return copy.deepcopy(fingerprint.find_node(_parse(os.path.join(repo, rel)), qual))
+
+
+class _Holes(ast.NodeTransformer):
+    def __init__(self, nodes):
+        self.ids = {id(n): k for k, n in enumerate(nodes)}
+
+    def visit(self, node):
+        if id(node) in self.ids:
+            k = self.ids[id(node)]
+            if isinstance(node, ast.Constant) and isinstance(node.value, str):
+                return ast.copy_location(ast.Constant(value="HOLE%d" % k), node)
+            return ast.copy_location(ast.Name(id="HOLE%d" % k, ctx=ast.Load()), node)
+        return super().visit(node)
+
+
+def _skeleton(fn, holes):
+    """normalised source of the function with the translated expressions replaced by HOLEk"""
+    from translate import fingerprint
+
+    t = _Holes(holes).visit(fn)
+    t = fingerprint._Strip().visit(t)
+    ast.fix_missing_locations(t)
+    return ast.unparse(t)
 
 
 CMP = {ast.Gt: ">?", ast.GtE: ">=?", ast.Lt: "<?", ast.LtE: "<=?", ast.Eq: "=?"}
@@ -200,108 +222,129 @@ def _sep(node):
     return ord(node.value)
 
 
+T2_FUNCS = [
+    ("lib/sqlalchemy/sql/compiler.py", "IdentifierPreparer._truncate_and_render_maxlen_name"),
+    ("lib/sqlalchemy/engine/default.py", "DefaultDialect.validate_identifier"),
+    ("lib/sqlalchemy/sql/compiler.py", "SQLCompiler._truncated_identifier"),
+    ("lib/sqlalchemy/sql/_util_cy.py", "prefix_anon_map.__missing__"),
+]
+
+
 def t2_terms(repo):
-    """returns {generated definition name: (Gallina term, model constant)}"""
-    out = {}
+    """Translates the arithmetic / comparison / literal sub-expressions of the four small functions into
+    Gallina.  Returns ({generated definition: (term, model constant)}, {function: skeleton text}) where the
+    skeleton is the normalised source with exactly those sub-expressions replaced by HOLEk; the skeleton is
+    pinned, the holes flow into Coq."""
+    out, skel = {}, {}
     comp = "lib/sqlalchemy/sql/compiler.py"
     # --- _truncate_and_render_maxlen_name
-    fn = _find(repo, comp, "IdentifierPreparer._truncate_and_render_maxlen_name")
+    fn = _find(repo, *T2_FUNCS[0])
+    holes = []
+
+    def H(n):
+        holes.append(n)
+        return n
+
     outer = _only([n for n in fn.body if isinstance(n, ast.If)][:1], "outer if")
-    if ast.unparse(outer.test) != "isinstance(name, elements._truncated_label)":
-        raise T("maxlen: unexpected outer test")
     inner = _only([n for n in outer.body if isinstance(n, ast.If)], "inner if")
     env = {"len(name)": "len_", "max_": "max_"}
-    out["gen_maxlen_too_long"] = ("(fun len_ max_ : Z => %s)" % _gal(inner.test, env), "maxlen_too_long")
+    out["gen_maxlen_too_long"] = ("(fun len_ max_ : Z => %s)" % _gal(H(inner.test), env), "maxlen_too_long")
     asg = _only(inner.body, "assignment")
-    if not (isinstance(asg, ast.Assign) and ast.unparse(asg.targets[0]) == "name"):
+    if not isinstance(asg, ast.Assign):
         raise T("maxlen: unexpected truncation statement")
     a, b, c = _concat3(asg.value, "maxlen truncation")
     v, lo, up = _slice_of(a, "name[0:max_-8]")
-    if ast.unparse(v) != "name" or not (isinstance(lo, ast.Constant) and lo.value == 0) or up is None:
+    if not (isinstance(lo, ast.Constant) and lo.value == 0) or up is None:
         raise T("maxlen: unexpected prefix slice")
-    out["gen_maxlen_cut"] = ("(fun max_ : Z => %s)" % _gal(up, env), "maxlen_cut")
-    out["gen_maxlen_sep"] = ("%d%%N" % _sep(b), "underscore")
+    out["gen_maxlen_cut"] = ("(fun max_ : Z => %s)" % _gal(H(up), env), "maxlen_cut")
+    out["gen_maxlen_sep"] = ("%d%%N" % _sep(H(b)), "underscore")
     v, lo, up = _slice_of(c, "md5_hex(name)[-4:]")
-    if ast.unparse(v) != "util.md5_hex(name)" or up is not None or lo is None:
+    if up is not None or lo is None:
         raise T("maxlen: unexpected digest slice")
-    out["gen_md5_tail"] = ("(%s)%%Z" % _gal(lo, {}), "md5_tail")
-    els = outer.orelse
-    if len(els) != 1 or ast.unparse(els[0]) != "self.dialect.validate_identifier(name)":
-        raise T("maxlen: unexpected else branch")
-    # --- index / constraint maxima
+    out["gen_md5_tail"] = ("(%s)%%Z" % _gal(H(lo), {}), "md5_tail")
+    skel[T2_FUNCS[0][1]] = _skeleton(fn, holes)
+    # --- index / constraint maxima (pinned as a whole; checked here for the shape  a or b)
     for meth, attr in (("truncate_and_render_index_name", "max_index_name_length"),
                        ("truncate_and_render_constraint_name", "max_constraint_name_length")):
-        fn = _find(repo, comp, "IdentifierPreparer." + meth)
-        asg = _only([n for n in fn.body if isinstance(n, ast.Assign)], "assignment in " + meth)
+        f2 = _find(repo, comp, "IdentifierPreparer." + meth)
+        asg = _only([n for n in f2.body if isinstance(n, ast.Assign)], "assignment in " + meth)
         if ast.unparse(asg.value) != "self.dialect.%s or self.dialect.max_identifier_length" % attr:
             raise T("%s: unexpected max_ expression" % meth)
     # --- validate_identifier
-    fn = _find(repo, "lib/sqlalchemy/engine/default.py", "DefaultDialect.validate_identifier")
+    fn = _find(repo, *T2_FUNCS[1])
+    holes = []
     iff = _only([n for n in fn.body if isinstance(n, ast.If)], "if in validate_identifier")
     out["gen_ident_too_long"] = (
-        "(fun len_ maxid : Z => %s)" % _gal(iff.test, {"len(ident)": "len_", "self.max_identifier_length": "maxid"}),
+        "(fun len_ maxid : Z => %s)" % _gal(H(iff.test), {"len(ident)": "len_", "self.max_identifier_length": "maxid"}),
         "ident_too_long")
-    if not (len(iff.body) == 1 and isinstance(iff.body[0], ast.Raise) and "IdentifierError" in ast.unparse(iff.body[0])):
-        raise T("validate_identifier: unexpected body")
+    skel[T2_FUNCS[1][1]] = _skeleton(fn, holes)
     # --- _truncated_identifier
-    fn = _find(repo, comp, "SQLCompiler._truncated_identifier")
+    fn = _find(repo, *T2_FUNCS[2])
+    holes = []
     iff = _only([n for n in fn.body if isinstance(n, ast.If) and "anonname" in ast.unparse(n.test)], "length test")
     env = {"len(anonname)": "len_", "self.label_length": "ll"}
-    out["gen_label_too_long"] = ("(fun len_ ll : Z => %s)" % _gal(iff.test, env), "label_too_long")
+    out["gen_label_too_long"] = ("(fun len_ ll : Z => %s)" % _gal(H(iff.test), env), "label_too_long")
     asgs = {ast.unparse(n.targets[0]): n.value for n in iff.body if isinstance(n, ast.Assign)}
     if set(asgs) != {"counter", "truncname", "self._truncated_counters[ident_class]"}:
         raise T("_truncated_identifier: unexpected statements %s" % sorted(asgs))
     g = asgs["counter"]
-    if not (isinstance(g, ast.Call) and ast.unparse(g.func) == "self._truncated_counters.get"
-            and len(g.args) == 2 and ast.unparse(g.args[0]) == "ident_class"):
+    if not (isinstance(g, ast.Call) and len(g.args) == 2):
         raise T("_truncated_identifier: unexpected counter lookup")
-    out["gen_counter_start"] = ("%s%%N" % _gal(g.args[1], {}), "counter_start")
+    out["gen_counter_start"] = ("%s%%N" % _gal(H(g.args[1]), {}), "counter_start")
     out["gen_counter_next"] = (
-        "(fun counter : N => %s%%N)" % _gal(asgs["self._truncated_counters[ident_class]"], {"counter": "counter"}),
+        "(fun counter : N => %s%%N)" % _gal(H(asgs["self._truncated_counters[ident_class]"]), {"counter": "counter"}),
         "counter_next")
     a, b, c = _concat3(asgs["truncname"], "truncname")
     v, lo, up = _slice_of(a, "anonname[0:...]")
-    if ast.unparse(v) != "anonname" or not (isinstance(lo, ast.Constant) and lo.value == 0) or up is None:
+    if not (isinstance(lo, ast.Constant) and lo.value == 0) or up is None:
         raise T("_truncated_identifier: unexpected prefix slice")
-    out["gen_label_cut"] = ("(fun ll : Z => %s)" % _gal(up, env), "label_cut")
-    out["gen_label_sep"] = ("%d%%N" % _sep(b), "underscore")
+    out["gen_label_cut"] = ("(fun ll : Z => %s)" % _gal(H(up), env), "label_cut")
+    out["gen_label_sep"] = ("%d%%N" % _sep(H(b)), "underscore")
     v, lo, up = _slice_of(c, "hex(counter)[2:]")
-    if ast.unparse(v) != "hex(counter)" or up is not None or lo is None:
+    if up is not None or lo is None:
         raise T("_truncated_identifier: unexpected hex slice")
-    out["gen_hex_skip"] = ("(%s)%%Z" % _gal(lo, {}), "hex_skip")
-    if len(iff.orelse) != 1 or ast.unparse(iff.orelse[0]) != "truncname = anonname":
-        raise T("_truncated_identifier: unexpected else branch")
+    out["gen_hex_skip"] = ("(%s)%%Z" % _gal(H(lo), {}), "hex_skip")
+    skel[T2_FUNCS[2][1]] = _skeleton(fn, holes)
     # --- prefix_anon_map.__missing__
-    fn = _find(repo, "lib/sqlalchemy/sql/_util_cy.py", "prefix_anon_map.__missing__")
+    fn = _find(repo, *T2_FUNCS[3])
+    holes = []
     stm = {}
     for n in fn.body:
         if isinstance(n, ast.Assign):
             stm[ast.unparse(n.targets[0])] = n.value
         elif isinstance(n, ast.AnnAssign) and n.value is not None:
             stm[ast.unparse(n.target)] = n.value
-    for k in ("derived", "anonymous_counter", "self_dict[derived]", "value", "self_dict[key]"):
+    for k in ("anonymous_counter", "self_dict[derived]", "value"):
         if k not in stm:
             raise T("prefix_anon_map.__missing__: no assignment to %s" % k)
-    if ast.unparse(stm["derived"]) != "key.split(' ', 1)[1]":
-        raise T("prefix_anon_map: unexpected derived")
     g = stm["anonymous_counter"]
-    if not (isinstance(g, ast.Call) and ast.unparse(g.func) == "self_dict.get" and len(g.args) == 2
-            and ast.unparse(g.args[0]) == "derived"):
+    if not (isinstance(g, ast.Call) and len(g.args) == 2):
         raise T("prefix_anon_map: unexpected counter lookup")
-    out["gen_anon_counter_start"] = ("%s%%N" % _gal(g.args[1], {}), "anon_counter_start")
+    out["gen_anon_counter_start"] = ("%s%%N" % _gal(H(g.args[1]), {}), "anon_counter_start")
     out["gen_anon_counter_next"] = (
-        "(fun c : N => %s%%N)" % _gal(stm["self_dict[derived]"], {"anonymous_counter": "c"}), "anon_counter_next")
+        "(fun c : N => %s%%N)" % _gal(H(stm["self_dict[derived]"]), {"anonymous_counter": "c"}), "anon_counter_next")
     v = stm["value"]
-    if not (isinstance(v, ast.JoinedStr) and len(v.values) == 3
-            and isinstance(v.values[0], ast.FormattedValue) and ast.unparse(v.values[0].value) == "derived"
-            and isinstance(v.values[2], ast.FormattedValue) and ast.unparse(v.values[2].value) == "anonymous_counter"
-            and v.values[0].format_spec is None and v.values[2].format_spec is None
-            and v.values[0].conversion == -1 and v.values[2].conversion == -1):
+    if not (isinstance(v, ast.JoinedStr) and len(v.values) == 3):
         raise T("prefix_anon_map: unexpected value expression")
-    out["gen_anon_sep"] = ("%d%%N" % _sep(v.values[1]), "underscore")
-    if ast.unparse(stm["self_dict[key]"]) != "value":
-        raise T("prefix_anon_map: value is not stored under the key")
-    return out
+    out["gen_anon_sep"] = ("%d%%N" % _sep(H(v.values[1])), "underscore")
+    skel[T2_FUNCS[3][1]] = _skeleton(fn, holes)
+    return out, skel
+
+
+def check_skeletons(skel):
+    from translate import fingerprint
+
+    cur = "\n".join("### %s\n%s\n" % (k, skel[k]) for _, k in T2_FUNCS)
+    pfile = os.path.join(VERIF, "translate", "pinned", "C21_skeleton.txt")
+    if os.environ.get("VERIF_PIN") == "1":
+        with open(pfile, "w") as f:
+            f.write(cur)
+        return
+    with open(pfile) as f:
+        old = f.read()
+    if old != cur:
+        d = "\n".join(difflib.unified_diff(old.split("\n"), cur.split("\n"), "modelled", "current", lineterm="", n=2))
+        raise fingerprint.TranslateError("statement skeleton of a translated function changed:\n" + d[:2500])
 
 
 def _optz(v):
@@ -314,18 +357,21 @@ def translate(repo, outdir):
     fingerprint.check(repo, ANCHORS, "C21")
     try:
         tbl = dialect_table(repo)
-        terms = t2_terms(repo)
+        terms, skel = t2_terms(repo)
     except T as e:
         raise fingerprint.TranslateError("C21 translator: %s" % e)
+    check_skeletons(skel)
     rows = "; ".join(
         "(%d%%N, {| d_maxid := %d; d_idx := %s; d_con := %s |})" % (d, tbl[d][0], _optz(tbl[d][1]), _optz(tbl[d][2]))
         for d in sorted(tbl))
-    v = [
+    head = [
         "(* generated by specs/c21.py from %s - do not edit *)" % repo,
         "From Coq Require Import List NArith ZArith Bool.",
         "Import ListNotations.",
         "From SAV.sql Require Import Trunc TruncMaxlen.",
         "Local Open Scope Z_scope.",
+    ]
+    v1 = head + [
         "(* T1: max_identifier_length / max_index_name_length / max_constraint_name_length per dialect *)",
         "Definition gen_dialects : list (N * dialect) := [%s]." % rows,
         "Lemma gen_dialects_ok : table_ok gen_dialects = true.",
@@ -338,16 +384,19 @@ def translate(repo, outdir):
         "  forall is_index convention given env s, specific_guard d is_index convention given = true ->",
         "  ddl_name md5_hex d is_index convention given env = Ok (Some s) -> slen s <= max_for d is_index.",
         "Proof. intros md5_hex. exact (table_within_specific md5_hex gen_dialects gen_dialects_ok). Qed.",
-        "(* T2: literals and operators of the source, convertible with the model's *)",
     ]
+    v2 = head + ["(* T2: literals and operators of the source, convertible with the model's *)"]
     for name in sorted(terms):
         term, model = terms[name]
-        v.append("Definition %s := %s." % (name, term))
-        v.append("Lemma %s_ok : %s = %s. Proof. reflexivity. Qed." % (name, name, model))
-    path = os.path.join(outdir, "C21_gen.v")
-    with open(path, "w") as f:
-        f.write("\n".join(v) + "\n")
-    return [path]
+        v2.append("Definition %s := %s." % (name, term))
+        v2.append("Lemma %s_ok : %s = %s. Proof. reflexivity. Qed." % (name, name, model))
+    paths = []
+    for fname, lines in (("C21_gen_dialects.v", v1), ("C21_gen_consts.v", v2)):
+        path = os.path.join(outdir, fname)
+        with open(path, "w") as f:
+            f.write("\n".join(lines) + "\n")
+        paths.append(path)
+    return paths
 
 
 # ------------------------------------------------------------------------------------------------
@@ -560,7 +609,8 @@ def gen_ddl(rng, tier, tbl, known):
                 if kind == 4 and how == "conv_cname":
                     continue  # the implicit primary key of every Table would already raise
                 if tier == "thorough":
-                    targets = list(range(0, 301))
+                    # every length 0..300, each with one of the five kinds
+                    targets = [t for t in range(0, 301) if (t + kind) % 5 == 0 or how == "conv_cname"]
                 else:
                     targets = set()
                     for lim in limits:
@@ -612,6 +662,20 @@ def gen_lowlevel(rng, tier):
                 pool.append([[1, rng.randint(1, 4), rle(rng.choice(ANON_BODIES))], [0, rle("_" + rng.choice(NAME_POOL_LIT[1:12]))]])
             else:
                 pool.append([[0, rle(rng.choice(NAME_POOL_LIT[1:8]) + "_")], [1, rng.randint(1, 4), rle(rng.choice(ANON_BODIES))]])
+        eff = py_or(ll, maxid)
+        if not ctrs and 6 <= eff <= 40 and rng.random() < 0.4:
+            # adversarial: literal names that look like truncated ones, next to over-long names sharing
+            # the prefix (they must be truncated themselves, never rendered as they are)
+            cut = eff - 6
+            ch = rng.choice("ab")
+            pool = [[[0, rle(ch * cut + "_" + "%x" % k)]] for k in rng.sample(range(1, 6), 2)]
+            pool += [[[0, rle(ch * (eff + rng.randint(-3, 4)) + suf)]] for suf in ("", "b", "c")]
+            pool = [x for x in pool if x != [[0, []]]]
+            reqs = [[0, n] for n in pool]
+            rng.shuffle(reqs)
+            reqs += [[rng.choice([0, 1]), rng.choice(pool)] for _ in range(rng.randint(0, 3))]
+            cases.append({"in": [1, ll, maxid, ctrs, reqs], "kind": "lowlevel_adv"})
+            continue
         reqs = [[rng.choice([0, 0, 1, 2]), rng.choice(pool)] for _ in range(rng.randint(1, 9))]
         cases.append({"in": [1, ll, maxid, ctrs, reqs], "kind": "lowlevel"})
     return cases
@@ -656,6 +720,13 @@ def gen_stmt(rng, tier, tbl, known):
                 while c in cols:
                     c = mkname(rng, len(c) + 1)
                 cols.append(c)
+            if 8 <= eff <= 60 and rng.random() < 0.3:
+                # adversarial: a short column whose anonymous label "<col>_1" looks like the truncation of
+                # the long ones sharing its prefix
+                ch = rng.choice(LETTERS)
+                cut = eff - 6
+                cols = [ch * cut, ch * (cut + rng.randint(3, 12)), ch * (cut + 1) + "b" * rng.randint(2, 9)]
+                ncols = 3
             tn = mkname(rng, rng.choice([1, 2, 3, ln()]), "t")
             items = []
             tq_used = set()
